@@ -1,0 +1,18 @@
+//go:build verif
+
+// Contracts for gocv (see /verif/DESIGN.md). Comment-only file: takes no part in any build.
+
+package address
+
+// MustLoadDriver panics for an unknown id by design; callers on peer-fed paths must not reach it
+// with an id they did not check. It is expanded at its call sites.
+//@ func MustLoadDriver
+//@   opt inline
+
+// ---- C33: deriving the sender address of an unverified transaction must not panic ---------------
+// (Transaction.From -> PubKeyToAddr runs in the mempool's event loop, which has no recover; the
+// address id comes from the unsigned Signature.Ty field of a peer's transaction.)
+// registry invariant (established by RegisterDriver): every registered entry is non-nil
+//@ func PubKeyToAddr [C33]
+//@   opt overflow=assumed
+//@   requires forall k Int :: has(drivers, k) ==> drivers[k] != nil
